@@ -70,7 +70,7 @@ func NewWork(tag string) (*Work, error) {
 	if err := os.WriteFile(filepath.Join(dir, "go.mod"), []byte(gomod), 0o644); err != nil {
 		return nil, err
 	}
-	sum, _ := os.ReadFile(schema.RepoDir()+"/go.sum")
+	sum, _ := os.ReadFile(schema.RepoDir() + "/go.sum")
 	_ = os.WriteFile(filepath.Join(dir, "go.sum"), sum, 0o644)
 	return &Work{Dir: dir}, nil
 }
